@@ -252,7 +252,7 @@ def tset_case(draw):
         jp = dict(xjumplo=lo, xjumphi=hi, xjumpval=draw(st.sampled_from([0.5, -1.25, 3.0, 0.0])))
     return dict(ntr=ntr, nx=nx, nc=nc, func=func, xkind=xkind, rows=rows, coeff=coeff, jump=jp, ykind=draw(st.sampled_from(['exact', 'noisy'])),
                 xminmax=draw(st.sampled_from([None, None, 'wider', 'xmin-only', 'xmax-only'])), xedge=draw(st.sampled_from([2.0, 0.5, 2.25, -1.5])), rerange=draw(st.sampled_from([None, None, [2.0, 3.0], [0.0, 10.0]])), zeros=draw(st.lists(st.integers(0, ntr * nx - 1), max_size=5, unique=True)),
-                noise=[draw(uf) for _ in range(8)], xorder=draw(st.sampled_from(['asc', 'asc', 'desc', 'shuffled'])), xdtype=draw(st.sampled_from(['f8', 'f8', 'i8', 'i4'])) if xkind == 'grid' else 'f8')
+                noise=[draw(uf) for _ in range(8)], xorder=draw(st.sampled_from(['asc', 'asc', 'desc', 'shuffled'])), xdtype=draw(st.sampled_from(['f8', 'f8', 'i8', 'i4', 'u1', 'i2', 'u2'])) if xkind == 'grid' else 'f8')
 
 
 def tset_body(case):
@@ -265,6 +265,9 @@ def tset_body(case):
     elif case.get('xorder') == 'shuffled':
         X = X[:, np.argsort((np.sin(np.arange(nx) * 12.9898) * 43758.5453) % 1.0)].copy()
     note_label('xorder:' + case.get('xorder', 'asc'))
+    if case.get('xdtype') in ('u1', 'i2', 'u2'):
+        # pixel numbers near the top of a narrow integer type (a detector 250 / 32 000 / 65 000 columns wide): their sum does not fit the type
+        X = X + ({'u1': 250.0, 'i2': 32000.0, 'u2': 65000.0}[case['xdtype']] - X.max())
     kw = dict(ncoeff=nc, func=func, maxiter=0)
     xe = case.get('xedge', 2.0)        # limits on whole numbers or on pixel edges (x.5), whatever the type of the positions; -1.5: a baseline narrower than the
     # positions (some lie outside it, |normalised x| > 1): still the requested baseline
@@ -296,6 +299,8 @@ def tset_body(case):
     iv.ravel()[case['zeros']] = 0.0
     # whole-number positions as the caller may hold them: pixel indices in an integer array (D47), single precision
     xdt = case.get('xdtype', 'f8')
+    if xdt[0] in 'iu' and (X.min() < np.iinfo(xdt).min or X.max() > np.iinfo(xdt).max):
+        xdt = 'i8'            # (positions that do not fit the narrow type)
     Xarg = X.astype(xdt)
     note_label('xdtype:' + xdt)
     tset = call(xy2traceset, Xarg.copy(), Y.copy(), invvar=iv.copy(), **kw)
